@@ -38,4 +38,24 @@ PROPS = {
     'C07': dict(level='exploration', budget={'quick': Q, 'thorough': T}, groups=A((10, 4, 2)),
                 rule='as C01 with EpsilonRecursive > 0; every query is observed through hook H2 (per-level window and chosen segment)',
                 assumptions=COMMON_ASSUME),
+    'C03': dict(level='exploration', budget={'quick': Q, 'thorough': T}, groups=A((9, 4, 3)),
+                rule='one case = (key type, run-time epsilon 0..1024, sorted key sequence, sequential or chunked builder under a simulated machine/team/schedule); '
+                     'every point handed to the builder is recorded through hook H1 and judged against the reported line; '
+                     'non-trivial and distinct = distinct (key type x motif signature x epsilon x n) with >= 2 segments, plus one per distinct trace of a run built by a team of >= 2 workers',
+                assumptions=COMMON_ASSUME + ['floating keys restricted to the exact dyadic tier; long double evaluation with tolerance 1e-9']),
+    'C04': dict(level='exploration', budget={'quick': Q, 'thorough': T}, groups=A((9, 4, 3)),
+                rule='as C03, integer keys only; the cut points of every chunk are compared with an exact 128-bit rational feasibility oracle (hull-based, cross-checked against the O(m^2) definition on chunks <= 1500 points)',
+                assumptions=COMMON_ASSUME + ['the exact feasibility oracle (oracle/pla_exact.hpp) is trusted; it shares no code with the builder and is cross-checked against its own naive version']),
+    'C08': dict(level='exploration', budget={'quick': Q, 'thorough': T}, groups=A((8, 6, 2)),
+                rule='one case = (CompressedPGMIndex configuration, sorted unsigned key sequence, simulated machine/team/schedule for the bottom-level build); '
+                     'C01+C02 oracles on present and absent queries; non-trivial and distinct = distinct (configuration x motif signature x n) with >= 2 bottom segments and both present and absent queries, '
+                     'plus one per distinct trace of a team-built index. Only E1 is simulator-owned here (weak use of the family, DESIGN.md 2); for n < 2^15 this is seeded generation against std::lower_bound.',
+                assumptions=COMMON_ASSUME + ['E1 (construction team) is the only simulator-owned dimension; no fault kind applies']),
+    'C09': dict(level='exploration', budget={'quick': Q, 'thorough': T}, groups=A((8, 6, 2)),
+                rule='as C08 for BucketingPGMIndex, plus: empty ranges at 0 / n outside [first,last], and the bucket slice selects the rightmost segment starting at or before the key (read through a subclass)',
+                assumptions=COMMON_ASSUME + ['E1 (construction team) is the only simulator-owned dimension; no fault kind applies',
+                                             'fixed TopLevelBitSize too small for the segment count throws by design and is skipped as out of domain']),
+    'C10': dict(level='exploration', budget={'quick': Q, 'thorough': T}, groups=A((8, 6, 2)),
+                rule='as C08 for EliasFanoPGMIndex, plus: the returned pos equals the estimate recomputed from the true predecessor segment (segment keys decoded from the Elias-Fano code through a subclass)',
+                assumptions=COMMON_ASSUME + ['E1 (construction team) is the only simulator-owned dimension; no fault kind applies']),
 }
